@@ -93,6 +93,7 @@ func TaxSummaryOracle(inv *bill.Invoice, c uint32, currencyRule bool, includes s
 	}
 	var cats []*cat
 	u := unit(c)
+	amplify := big.NewRat(1, 1)
 	for _, rw := range rows {
 		tot := new(big.Rat).Set(rw.total)
 		if includes != "" {
@@ -102,6 +103,11 @@ func TaxSummaryOracle(inv *bill.Invoice, c uint32, currencyRule bool, includes s
 						f := new(big.Rat).Add(big.NewRat(1, 1), rat(cb.Percent.Base()))
 						if f.Sign() != 0 {
 							tot.Quo(tot, f)
+							// dividing by a factor below one magnifies the half-unit
+							// uncertainty of the presented row accordingly
+							if inv := new(big.Rat).Inv(absRat(f)); inv.Cmp(amplify) > 0 {
+								amplify = inv
+							}
 						}
 					}
 					break
@@ -183,6 +189,7 @@ func TaxSummaryOracle(inv *bill.Invoice, c uint32, currencyRule bool, includes s
 				// each presented row is within half a unit of its working value (twice with included-tax removal), plus the base's own rounding
 				slack.Mul(u, big.NewRat(int64(2*g.nrows+1), 2))
 				slack.Mul(slack, big.NewRat(2, 1))
+				slack.Mul(slack, amplify)
 			}
 			if diff.Cmp(slack) > 0 {
 				bad("category %s group %d: base %s differs from the sum of its rows' tax-exclusive totals %s by more than %s", ct.Code, j, rt.Base.String(), g.base.FloatString(int(c)+3), slack.FloatString(int(c)+2))
